@@ -134,7 +134,7 @@ def gen_t3(rng):
                 else:
                     v2 = rng.randint(2, max(2, 2 * T))
                 accel = (jerk * (1 - v2)) // 2 + rng.choice([0, 0, 1, -1])
-            else:
+            elif fam not in ("vertex_mid", "equal_ends"):          # those two have fixed their acceleration above
                 amax = max(1, min(M, M // max(1, T)))
                 accel = rng.randint(-amax, amax)
             re_v = rng.randint(-M // 2, M // 2)
